@@ -227,8 +227,28 @@ func c01Scenario(t *testing.T, o *vOut, seed int64, maxN, scIdx int) {
 	if rng.Intn(5) == 0 {
 		storeFaultAt = 1 + rng.Intn(4)
 	}
+	useFiles := rng.Intn(4) == 0
+	var dir string
+	if useFiles {
+		dir = t.TempDir()
+	}
 	synctest.Test(t, func(t *testing.T) {
-		st := vNewMem()
+		var st Storage
+		var getOps func() []vOp
+		var setHooks func(on func(ctx context.Context, n int, kind, key string), fault func(n int, kind, key string) error)
+		if useFiles {
+			r := &vRec{S: &FileStorage{Path: dir}}
+			st, getOps = r, r.Ops
+			setHooks = func(on func(ctx context.Context, n int, kind, key string), fault func(n int, kind, key string) error) {
+				r.OnOpCtx, r.Fault = on, fault
+			}
+		} else {
+			m := vNewMem()
+			st, getOps = m, m.Ops
+			setHooks = func(on func(ctx context.Context, n int, kind, key string), fault func(n int, kind, key string) error) {
+				m.OnOpCtx, m.Fault = on, fault
+			}
+		}
 		ca := vNewCA("c01")
 		iss := vNewIssuer("ca-one", ca)
 		canon := canonicalSubjectForVerif(fam[0])
@@ -244,14 +264,8 @@ func c01Scenario(t *testing.T, o *vOut, seed int64, maxN, scIdx int) {
 			iss.Lifetime, iss.Backdate = 90*24*time.Hour, 0
 			cfg0.certCache.Stop()
 		}
-		baseOps := len(st.Ops())
+		baseOps := len(getOps())
 		baseCalls := len(iss.Calls())
-		baseStores := 0
-		for _, op := range st.Ops() {
-			if op.Kind == "Store" {
-				baseStores++
-			}
-		}
 		// requests
 		reqs := make([]*c01Req, n)
 		kinds := []string{"obtain", "renew", "manage"}
@@ -284,7 +298,8 @@ func c01Scenario(t *testing.T, o *vOut, seed int64, maxN, scIdx int) {
 			dmu.Unlock()
 			time.Sleep(d)
 		}
-		st.OnOpCtx = func(ctx context.Context, n int, kind, key string) { pause(vReqOf(ctx)) }
+		onOp := func(ctx context.Context, n int, kind, key string) { pause(vReqOf(ctx)) }
+		var fault func(n int, kind, key string) error
 		var nCalls int
 		iss.Behave = func(n int, names []string) error {
 			dmu.Lock()
@@ -299,7 +314,7 @@ func c01Scenario(t *testing.T, o *vOut, seed int64, maxN, scIdx int) {
 		}
 		if storeFaultAt > 0 {
 			var stores int
-			st.Fault = func(n int, kind, key string) error {
+			fault = func(n int, kind, key string) error {
 				if kind != "Store" {
 					return nil
 				}
@@ -313,6 +328,7 @@ func c01Scenario(t *testing.T, o *vOut, seed int64, maxN, scIdx int) {
 				return nil
 			}
 		}
+		setHooks(onOp, fault)
 		var wg sync.WaitGroup
 		for _, r := range reqs {
 			r := r
@@ -343,7 +359,8 @@ func c01Scenario(t *testing.T, o *vOut, seed int64, maxN, scIdx int) {
 		}
 		wg.Wait()
 		// collect
-		ops := st.Ops()[baseOps:]
+		setHooks(nil, nil)
+		ops := getOps()[baseOps:]
 		calls := iss.Calls()[baseCalls:]
 		var all []c01Ev
 		problem := ""
@@ -429,6 +446,11 @@ func c01Scenario(t *testing.T, o *vOut, seed int64, maxN, scIdx int) {
 		o.Stat("requests", n)
 		o.Stat("issuer_calls", len(calls))
 		o.Stat("init_"+initial, 1)
+		if useFiles {
+			o.Stat("backend_filestorage", 1)
+		} else {
+			o.Stat("backend_memory", 1)
+		}
 
 		// Go-side monitors, independent of the model -------------------------------------
 		// (1) overlapping issuer calls for the subject
@@ -478,6 +500,9 @@ func c01Scenario(t *testing.T, o *vOut, seed int64, maxN, scIdx int) {
 		}
 		if left := vLeftovers(); len(left) > 0 {
 			o.Mon("C01 lock-left", map[string]any{"seed": seed, "left": left})
+		}
+		if useFiles {
+			time.Sleep(12 * time.Second) // let the lock-file heartbeats notice their files are gone
 		}
 	})
 }
